@@ -10,7 +10,16 @@
    specq P <toks> <tisize> <fields> <itemsize>
        -> <length of rendered string> <0|1> <None | nitems end first last>   (long layouts)
    pnum <hexstring>   -> None | <n> <length of rest> | IntOvf          (parse_number)
-   dec <n>            -> hex of (decimal n) *)
+   dec <n>            -> hex of (decimal n)
+   tcheck <fx3bits> <deep><grand> <hexfmt> <tree> <itemsize>     (check_tree: the struct-stack checker)
+       tree: l<g>:<sz>:<dims>  |  s<size>[<tree>@<off>;<tree>@<off>;...]
+       -> Accept | Reject | ...
+   twalk <deep><grand> <tree>  -> members the struct stack visits  g:sz:off:dims/...  (or the error)
+   tflat <tree>                -> flatten tree 0 in the same notation
+   ticmp <fixh> <cinfo a> <cinfo b>   -> 0 | 1      (__pyx_typeinfo_cmp(a, b))
+       cinfo: c<size>:<group>:<unsigned>:<dims>:<flags>  optionally followed by [<cinfo>@<off>;...]
+   ticompat <cinfo a> <cinfo b>       -> 0 | 1      (cinfo_compat: the specification)
+   axes <n|c|f> <axes: S strided, C contig (::1), F follow> <itemsize> <shape,..> <strides,..>  -> 0 | 1   (validate_axes) *)
 let zl_of_bytes s = List.map z_of_int (ints_of_hex s)
 let leaf_of s =
   match String.split_on_char ':' s with
@@ -90,7 +99,101 @@ let pnum_out h =
   | Ok (Some (n, r)) -> string_of_z n ^ " " ^ string_of_int (List.length r)
   | IntOvf -> "IntOvf"
   | _ -> "!ERR pnum"
+(* ---- nested struct dtypes ---- *)
+let parse_tree (s : string) : ttype =
+  let n = String.length s in
+  let pos = ref 0 in
+  let peek () = if !pos < n then s.[!pos] else '\000' in
+  let upto stops =
+    let st = !pos in
+    while !pos < n && not (List.mem s.[!pos] stops) do incr pos done;
+    String.sub s st (!pos - st) in
+  let rec tree () =
+    match peek () with
+    | 'l' -> incr pos;
+        let body = upto ['@'; ';'; ']'] in
+        (match String.split_on_char ':' body with
+         | [g; sz; dims] ->
+             let d = if dims = "-" then [] else List.map z_of_string (String.split_on_char '.' dims) in
+             TLeaf { l_group = z_of_string g; l_size = z_of_string sz; l_arr = d }
+         | _ -> failwith "tleaf")
+    | 's' -> incr pos;
+        let size = upto ['['] in
+        incr pos;
+        let fs = ref [] in
+        while peek () <> ']' do
+          let t = tree () in
+          if peek () <> '@' then failwith "tree@";
+          incr pos;
+          let o = upto [';'; ']'] in
+          fs := (t, z_of_string o) :: !fs;
+          if peek () = ';' then incr pos
+        done;
+        incr pos;
+        TStruct (z_of_string size, List.rev !fs)
+    | _ -> failwith "tree" in
+  let t = tree () in
+  if !pos <> n then failwith "tree-trailing";
+  t
+let members_str l =
+  let one (lf, o) =
+    string_of_z lf.l_group ^ ":" ^ string_of_z lf.l_size ^ ":" ^ string_of_z o ^ ":" ^
+    (if lf.l_arr = [] then "-" else String.concat "." (List.map string_of_z lf.l_arr)) in
+  if l = [] then "-" else String.concat "/" (List.map one l)
+let twalk_out v tree =
+  match walk (v.[0] = '1') (v.[1] = '1') (parse_tree tree) with
+  | Ok l -> members_str l
+  | r -> string_of_res r
+let parse_cinfo (s : string) : cinfo =
+  let n = String.length s in
+  let pos = ref 0 in
+  let peek () = if !pos < n then s.[!pos] else '\000' in
+  let upto stops =
+    let st = !pos in
+    while !pos < n && not (List.mem s.[!pos] stops) do incr pos done;
+    String.sub s st (!pos - st) in
+  let rec ci () =
+    if peek () <> 'c' then failwith "cinfo";
+    incr pos;
+    let body = upto ['['; '@'; ';'; ']'] in
+    let (size, g, u, dims, fl) =
+      match String.split_on_char ':' body with
+      | [a; b; c; d; e] -> (a, b, c, d, e)
+      | _ -> failwith "cinfo-fields" in
+    let d = if dims = "-" then [] else List.map z_of_string (String.split_on_char '.' dims) in
+    let fields =
+      if peek () = '[' then begin
+        incr pos;
+        let fs = ref [] in
+        while peek () <> ']' do
+          let t = ci () in
+          if peek () <> '@' then failwith "cinfo@";
+          incr pos;
+          let o = upto [';'; ']'] in
+          fs := (t, z_of_string o) :: !fs;
+          if peek () = ';' then incr pos
+        done;
+        incr pos;
+        Some (List.rev !fs)
+      end else None in
+    CInfo (z_of_string size, z_of_string g, z_of_string u, d, z_of_string fl, fields) in
+  let t = ci () in
+  if !pos <> n then failwith "cinfo-trailing";
+  t
+let zcsv s = if s = "" then [] else List.map z_of_string (String.split_on_char ',' s)
+let axes_out fl spec isz shape strides =
+  let ax = List.init (String.length spec) (fun i ->
+    match spec.[i] with 'S' -> AStrided | 'C' -> AContig | 'F' -> AFollow | _ -> failwith "axis") in
+  let f = match fl with "c" -> FC | "f" -> FF | _ -> FNone in
+  if validate_axes ax f (z_of_string isz) (zcsv shape) (zcsv strides) then "1" else "0"
 let handle = function
+  | ["axes"; fl; spec; isz; shape; strides] -> axes_out fl spec isz shape strides
+  | ["ticmp"; fixh; a; b] -> if ticmp (fixh = "1") (parse_cinfo a) (parse_cinfo b) then "1" else "0"
+  | ["ticompat"; a; b] -> if cinfo_compat (parse_cinfo a) (parse_cinfo b) then "1" else "0"
+  | ["tcheck"; fx; v; h; tree; isz] ->
+      string_of_res (check_tree (fx_of fx) (v.[0] = '1') (v.[1] = '1') (zl_of_bytes h) (parse_tree tree) (z_of_string isz))
+  | ["twalk"; v; tree] -> twalk_out v tree
+  | ["tflat"; tree] -> members_str (flatten (parse_tree tree) Z0)
   | ["pnum"; h] -> pnum_out (if h = "-" then "" else h)
   | ["dec"; n] -> hex_of_zbytes (decimal (z_of_string n))
   | ["specq"; "P"; body; size; fields; isz] -> specq_out (FPlain (toks_of body)) size fields isz
